@@ -1697,8 +1697,13 @@ Proof.
       rewrite (C01.shake0_bexp_cmp fu l1 op r1 Eop) in H.
       rewrite (C01.shake0_leaf fu l1 G1), (C01.shake0_leaf fu r1 G2) in H. cbn [bind] in H.
       inversion H; subst. cbn [allq]. rewrite Eop. exact Ha.
-  - cbn [shake0] in H. apply C03.bind_ok_inv in H. destruct H as (x & Hx & H). inversion H; subst.
-    cbn [allq] in *. apply andb_prop in Ha. destruct Ha as [-> Ha]. cbn [andb]. exact (IH e x Hg Ha Hx).
+  - destruct (C01.shake0_match_inv _ _ _ _ H) as [(s0 & l0 & l' & -> & Hm & ->)|(_ & x & Hx & ->)].
+    + cbn [allq gk] in *. apply andb_prop in Ha. destruct Ha as [-> Ha]. cbn [andb].
+      apply andb_prop in Hg. destruct Hg as [Hs Hl].
+      apply C01.mapM_Forall2 in Hm. apply C01.forallb_intro. intros y Hy.
+      destruct (Forall2_In_r _ _ _ y Hm Hy) as (x & Hx & Hxy).
+      exact (IH x y (C01.forallb_In _ _ _ Hl Hx) (C01.forallb_In _ _ _ Ha Hx) Hxy).
+    + cbn [allq] in *. apply andb_prop in Ha. destruct Ha as [-> Ha]. cbn [andb]. exact (IH e x Hg Ha Hx).
   - cbn [shake0] in H. apply C03.bind_ok_inv in H. destruct H as (x & Hx & H). cbn [allq] in Ha.
     pose proof (IH e x Hg Ha Hx) as Ax.
     destruct (shake0_good K fu e Hg) as (x' & Ex & Gx). rewrite Hx in Ex. inversion Ex; subst x'.
